@@ -8,7 +8,7 @@
    or None for a Go panic. [seq_run s l] is the specification: every request alone, in log order.
    The handlers, the store and the write operations are arbitrary (universally quantified). *)
 From Coq Require Import List NArith Bool Permutation.
-From ZV Require Import Determ.Consts Determ.Model Determ.Proofs.
+From ZV Require Import Determ.Consts Determ.Model Determ.ModelRW Determ.Proofs Determ.ProofsRW.
 Import ListNotations.
 Open Scope N_scope.
 
@@ -128,6 +128,26 @@ Theorem C07_isolation_from_rw_sets :
     isolation store W R apply_w handler.
 Proof. exact indep_from_rw_sets. Qed.
 Print Assumptions C07_isolation_from_rw_sets.
+
+(* ... and for the read/write sets of the four batchable commands as transcribed from the handlers
+   (coq/Determ/ModelRW.v: SET/SETEX/DEL read and write their own [KV] key, HMSET its own size record and
+   field keys; table counters are only merged and expire-time index keys only written, neither is ever
+   read), the disjointness is PROVED, not assumed: isolation holds for every handler that respects these
+   sets over an engine with the frame property. The observed write sets of the real handlers are checked
+   against wset on every run (WS cases). *)
+Theorem C07_isolation_concrete :
+  forall (store W R V : Type) apply_w (handler : req -> store -> outcome W R) (get : store -> ekey -> V) (wkey : W -> ekey),
+    (forall s w k, wkey w <> k -> get (apply_w s w) k = get s k) ->
+    (forall q s s', (forall k, rset q k -> get s k = get s' k) -> handler q s = handler q s') ->
+    (forall q s ws r, handler q s = Ok ws r -> forall w, In w ws -> wset q (wkey w)) ->
+    isolation store W R apply_w handler.
+Proof. exact isolation_concrete. Qed.
+Print Assumptions C07_isolation_concrete.
+
+Theorem C07_rw_sets_disjoint : forall q q' k, name_batchable q = true -> name_batchable q' = true ->
+  rpk q <> rpk q' -> wset q' k -> rset q k -> False.
+Proof. exact rw_isolation. Qed.
+Print Assumptions C07_rw_sets_disjoint.
 
 (* (c) the replay flag cannot matter for entries that do not come from the cluster syncer: no hypothesis *)
 Theorem C07_replay_flag_irrelevant :
